@@ -32,6 +32,7 @@ struct Standard {
     std::vector<Mat> Sfull;            // true full P x P S at each frequency (incl. unconnected block)
     std::vector<Mat> noise;            // optional: relative perturbation (r x c) of the measured cells per frequency
     std::vector<Mat> Afix;             // optional: the 'a' matrix to use (else random), per frequency
+    std::vector<Mat> add_noise;        // optional: absolute additive noise (r x c) on the measured cells per frequency
     bool connected(int p) const { for (int q : ports) if (q == p) return true; return false; }
     std::string describe() const {
         static const char *en[] = {"single_reflect", "double_reflect", "through", "line", "mapped_matrix"};
@@ -319,6 +320,50 @@ static inline vm::Ident ident_at(const Scenario &sc, int f) {
     return vm::identifiability(sc.box[f], S, usable_cells(sc));
 }
 
+// ---- equation / unknown counts as vnacal_new(3) describes them -------------------------------
+// number of measured cells with a signal path, per independent system, as vnacal_new(3) counts equations
+// (T types: measured row x S column; U types: S row x measured column; both need a path)
+static inline std::vector<int> count_equations(const Scenario &sc, size_t nstd) {
+    int nsys = vm::is_colsys(sc.type) ? sc.c : 1;
+    std::vector<int> eq(nsys, 0);
+    for (size_t s = 0; s < nstd; s++) {
+        const Standard &st = sc.stds[s];
+        // connectivity classes as in leakage_uncovered()
+        int P = sc.P; std::vector<int> cls(P);
+        for (int p = 0; p < P; p++) cls[p] = st.connected(p) ? p : -1;
+        auto merge = [&](int a, int b) { int ca = cls[a], cb = cls[b]; if (ca == cb) return; for (auto &x : cls) if (x == cb) x = ca; };
+        if (st.entry == Standard::THROUGH) merge(st.ports[0], st.ports[1]);
+        else if (st.entry >= Standard::LINE) for (int i = 0; i < st.k; i++) for (int j = 0; j < st.k; j++) if (i != j) {
+            const SCell &cell = st.cells[i * st.k + j];
+            bool kz = cell.kind == SCell::MATCH || (cell.kind == SCell::SCALAR && cell.v[0] == C(0, 0));
+            if (!kz) merge(st.ports[i], st.ports[j]);
+        }
+        if (vm::is_16(sc.type)) {
+            // 16-term: one equation per (measured row x known S column) for T, (known S row x measured column)
+            // for U -- a row/column of S is known for every port the standard connects
+            int nconn = 0; for (int p = 0; p < P; p++) if (st.connected(p)) nconn++;
+            eq[0] += sc.type == vm::T16 ? (int)supplied_rows(sc, st).size() * nconn : nconn * (int)supplied_cols(sc, st).size();
+            continue;
+        }
+        for (int i : supplied_rows(sc, st)) for (int j : supplied_cols(sc, st)) {
+            if (!st.connected(i) || !st.connected(j)) continue;          // needs known S row/column
+            if (!vm::is_16(sc.type) && cls[i] != cls[j]) continue;       // no path: leakage sample, not an equation
+            eq[vm::is_colsys(sc.type) ? j : 0]++;
+        }
+    }
+    return eq;
+}
+static inline int unknowns_per_system(const Scenario &sc) {
+    int r = sc.r, cc = sc.c, P = sc.P;
+    switch (sc.type) {
+    case vm::T8: case vm::U8: case vm::TE10: case vm::UE10: return 2 * r + 2 * cc - 1;
+    case vm::T16: return 2 * r * cc + 2 * cc * cc - 1;
+    case vm::U16: return 2 * r * cc + 2 * r * r - 1;
+    default: return 2 * P + 1;        // UE14/E12: um(r) ui(1) ux(r) us(1) minus the unity term, per column
+    }
+}
+
+
 // ---- driver: feed a scenario to libvna -----------------------------------------------------
 struct MatVec {       // matrix of per-frequency vectors in the layout libvna wants
     int rows = 0, cols = 0, F = 0;
@@ -339,6 +384,9 @@ struct Runner {
     ~Runner() { if (vnp) vnacal_new_free(vnp); if (vcp) vnacal_free(vcp); }
 
     void create() {
+        // parameter handles belong to one vnacal_t: forget those of an earlier run of the same scenario
+        for (auto &st : sc.stds) for (auto &cell : st.cells) cell.handle = -1;
+        for (auto &u : sc.uparams) u.handle = u.guess_handle = -1;
         vcp = vnacal_create(errlog_fn, &log);
         PBT_CHECK(c, vcp != nullptr, "cal.create", "vnacal_create failed");
     }
@@ -393,7 +441,7 @@ struct Runner {
             Mat M;
             PBT_CHECK(c, sc.box[f].measure(Sfull[f], M), "gen.model_singular", "model (I - S Em) singular");
             Mat Ms(br, bc);
-            for (int i = 0; i < br; i++) for (int j = 0; j < bc; j++) Ms(i, j) = M(rows[i], cols[j]) * (st.noise.empty() ? C(1, 0) : C(1, 0) + st.noise[f](rows[i], cols[j]));
+            for (int i = 0; i < br; i++) for (int j = 0; j < bc; j++) Ms(i, j) = M(rows[i], cols[j]) * (st.noise.empty() ? C(1, 0) : C(1, 0) + st.noise[f](rows[i], cols[j])) + (st.add_noise.empty() ? C(0, 0) : st.add_noise[f](rows[i], cols[j]));
             if (!sc.ab) { for (int i = 0; i < br; i++) for (int j = 0; j < bc; j++) B.set(i, j, f, Ms(i, j)); continue; }
             if (colsys) {
                 for (int j = 0; j < bc; j++) { C a = (st.Afix.empty() ? polar(0.5L + rnd->unit(), 2 * M_PIl * rnd->unit()) : st.Afix[f](0, cols[j])) * ab_scale; A.set(0, j, f, a); for (int i = 0; i < br; i++) B.set(i, j, f, Ms(i, j) * a); }
